@@ -51,7 +51,6 @@ def float_to_frac(x):
 
 class Expr:
     __slots__ = ("op", "args", "_h")
-    __array_priority__ = 1000
 
     def __new__(cls, op, *args):
         key = (op,) + args
@@ -81,8 +80,8 @@ class Expr:
         return Expr("const", float_to_frac(v))
 
     @staticmethod
-    def sym(name):
-        return Expr("sym", name)
+    def sym(name, idx=()):
+        return Expr("sym", name, tuple(idx))
 
     def is_const(self, v=None):
         return self.op == "const" and (v is None or self.args[0] == v)
@@ -244,7 +243,7 @@ def to_text(e):
     if op == "const":
         return str(e.args[0])
     if op == "sym":
-        return e.args[0]
+        return e.args[0] + "".join("_%d" % i for i in e.args[1])
     if op in ("add", "sub", "mul", "div", "sdiv"):
         s = {"add": "+", "sub": "-", "mul": "*", "div": "/", "sdiv": "//"}[op]
         return "(%s %s %s)" % (to_text(e.args[0]), s, to_text(e.args[1]))
@@ -276,6 +275,10 @@ def symbols_of(e, acc=None, seen=None):
             if isinstance(a, Expr):
                 stack.append(a)
     return acc
+
+
+def sym_key(base, idx=()):
+    return base + "".join("_%d" % i for i in idx)
 
 
 def check_plain_divisions(e, allowed=("kappa",)):
@@ -316,7 +319,7 @@ def evaluate(e, env, opaque, memo=None):
         if op == "const":
             v = x.args[0]
         elif op == "sym":
-            v = env[x.args[0]]
+            v = env[sym_key(x.args[0], x.args[1])]
         elif op == "add":
             v = memo[x.args[0]] + memo[x.args[1]]
         elif op == "sub":
@@ -352,7 +355,7 @@ GRID = (1, 1, 1)
 def symtensor(name, shape):
     a = np.empty(tuple(shape) + GRID, dtype=object)
     for idx in np.ndindex(*shape):
-        a[idx + (0, 0, 0)] = Expr.sym(name + "".join("_%d" % i for i in idx) if idx else name)
+        a[idx + (0, 0, 0)] = Expr.sym(name, idx)
     return a
 
 
